@@ -267,9 +267,32 @@ impl rustc_driver::Callbacks for Cb {
                 }
             }
             let has_unsafe = false;
+            // fn items mentioned in promoted constants (`&parse_level_6` passed as a callback is promoted)
+            let mut mentions: Vec<String> = Vec::new();
+            for pbody in tcx.promoted_mir(did).iter() {
+                for data in pbody.basic_blocks.iter() {
+                    for st in &data.statements {
+                        if let StatementKind::Assign(b) = &st.kind {
+                            let (_, rv) = &**b;
+                            let mut ops: Vec<&Operand<'tcx>> = Vec::new();
+                            match rv {
+                                Rvalue::Use(o, _) | Rvalue::Repeat(o, _) | Rvalue::Cast(_, o, _) | Rvalue::UnaryOp(_, o) => ops.push(o),
+                                Rvalue::Aggregate(_, fields) => { for o in fields.iter() { ops.push(o); } }
+                                _ => {}
+                            }
+                            for o in ops {
+                                if let Operand::Constant(c) = o {
+                                    let s = const_str(tcx, te, &c.const_);
+                                    if let Some(rest) = s.strip_prefix("F:") { mentions.push(q(rest)); }
+                                }
+                            }
+                        }
+                    }
+                }
+            }
             let _ = write!(
                 out,
-                "{{\"k\":\"fn\",\"fn\":{},\"kind\":{},\"file\":{},\"line\":{},\"end_line\":{},\"parent\":{},\"argc\":{},\"unsafe\":{},\"locals\":[{}],\"names\":[{}],\"bbs\":[",
+                "{{\"k\":\"fn\",\"fn\":{},\"kind\":{},\"file\":{},\"line\":{},\"end_line\":{},\"parent\":{},\"argc\":{},\"unsafe\":{},\"mentions\":[{}],\"locals\":[{}],\"names\":[{}],\"bbs\":[",
                 q(&path),
                 q(&format!("{:?}", kind)),
                 q(&file),
@@ -278,6 +301,7 @@ impl rustc_driver::Callbacks for Cb {
                 q(&parent),
                 body.arg_count,
                 has_unsafe,
+                mentions.join(","),
                 locals.join(","),
                 names.join(",")
             );
